@@ -13,6 +13,7 @@ from typing import Any
 from .core import cstr, clist, cpair, cbool, cforest, cnat, copt
 
 LIT = ["alpha", "beta", "gamma", "delta", "mtu", "ip", "peer", "name", "vlan", "port"]
+PREFIX_LIKE = ["node", "notify", "undone", "deleted", "removed"]     # no / undo / delete / remove + letters
 VAL = ["1", "2", "3", "x", "y", "10.0.0.1", "Eth1"]
 LOGICS = ["default", "default", "default", "default", "undo_redo", "permanent", "ignore_changes"]
 
@@ -48,6 +49,8 @@ def gen_pattern(rng: random.Random, used: set, depth: int) -> str:
     for _ in range(20):
         n = rng.choice([1, 1, 2, 2, 3])
         toks = [rng.choice(LIT)]
+        if rng.random() < 0.06:
+            toks = [rng.choice(PREFIX_LIKE)]        # a first word that merely BEGINS with a negation word
         for _ in range(n - 1):
             toks.append(rng.choice(LIT + ["*", "*", "*"]))
         r = rng.random()
